@@ -35,6 +35,9 @@ def handle_min_max_height(function):
     def wrapper(box, *args):
         computed_margins = box.margin_top, box.margin_bottom
         result = function(box, *args)
+        if box.height == 'auto':
+            # The height depends on the content, that is not laid out yet.
+            return result
         if box.height > box.max_height:
             box.height = box.max_height
             box.margin_top, box.margin_bottom = computed_margins
